@@ -110,6 +110,108 @@ pub fn check_square(ctx: &mut Ctx, a: Sq, rook: bool, noise: &[u64]) -> Result<(
     Ok(())
 }
 
+/// What one lookup of a sequence answers: (magic variant, pext variant where compiled in).
+fn ask(a: Sq, rook: bool, occ: u64) -> (u64, Option<u64>) {
+    let q = Square::new(a);
+    let bb = BitBoard::new(occ);
+    let got = if rook { get_rook_moves(q, bb).0 } else { get_bishop_moves(q, bb).0 };
+    #[cfg(target_feature = "bmi2")]
+    let gotb = Some(if rook { chess::get_rook_moves_bmi(q, bb).0 } else { chess::get_bishop_moves_bmi(q, bb).0 });
+    #[cfg(not(target_feature = "bmi2"))]
+    let gotb = None;
+    (got, gotb)
+}
+
+/// Lookups asked one after another the way a program asks them - for the men of one position in
+/// turn, then for a man that has just moved - on a thread of their own, so that the answers are a
+/// function of the sequence alone: each must be what ray walking gives, whatever was asked before.
+pub fn check_sequence(ctx: &mut Ctx, seq: &[(Sq, bool, u64)]) -> Result<(), Violation> {
+    let case = || json!({"sequence": seq.iter().map(|(a, r, o)| json!([sq_name(*a), if *r { "rook" } else { "bishop" }, format!("{:#018x}", o)])).collect::<Vec<_>>(), "build": BUILD});
+    ctx.set_case(case());
+    let answers: Vec<(u64, Option<u64>)> = std::thread::scope(|sc| sc.spawn(|| seq.iter().map(|&(a, r, o)| ask(a, r, o)).collect()).join()).map_err(|_| ctx.violation("slider:panic", "a lookup of the sequence panicked".into(), case()))?;
+    ctx.evals_add(seq.len() as u64 * if cfg!(target_feature = "bmi2") { 2 } else { 1 });
+    for (i, (&(a, rook, occ), &(got, gotb))) in seq.iter().zip(answers.iter()).enumerate() {
+        let want = walk(a, rook, occ);
+        let piece = if rook { "rook" } else { "bishop" };
+        if got != want {
+            ctx.fail(&format!("slider:{}-magic", piece), format!("lookup {} of the sequence: get_{}_moves({}, {:#x}) = {:?}, ray walking gives {:?} [{} build]", i, piece, sq_name(a), occ, sqs(got), sqs(want), BUILD), case())?;
+        }
+        if let Some(gb) = gotb {
+            if gb != want {
+                ctx.fail(&format!("slider:{}-bmi2", piece), format!("lookup {} of the sequence: get_{}_moves_bmi({}, {:#x}) = {:?}, ray walking gives {:?}", i, piece, sq_name(a), occ, sqs(gb), sqs(want)), case())?;
+            }
+        }
+    }
+    Ok(())
+}
+
+/// A sequence from generated words: an occupancy of chosen density, its men asked in some order
+/// with some piece kinds, then men moved along their own attack sets and asked again.
+pub fn sequence_of(w: &[u64; 6]) -> Vec<(Sq, bool, u64)> {
+    let mut occ = match w[3] % 6 {
+        0 => w[0],
+        1 | 2 => w[0] & w[1],
+        3 => w[0] & w[1] & w[2],
+        // crowded back ranks, thin middle
+        4 => (w[0] & 0xFF00_0000_0000_00FF) | (w[1] & w[2] & 0x00FF_FFFF_FFFF_FF00),
+        _ => (w[0] & w[1] & 0xFFFF_0000_0000_FFFF) | (w[2] & w[1] & w[0]),
+    };
+    if occ == 0 {
+        occ = 1 << (w[4] % 64);
+    }
+    let mut men: Vec<Sq> = (0..64u8).filter(|s| occ >> s & 1 == 1).collect();
+    match (w[3] >> 8) % 4 {
+        0 => {}
+        1 => men.reverse(),
+        _ => {
+            // a permutation keyed by the generated word
+            let k = w[4];
+            men.sort_by_key(|s| fp(&(k, *s)));
+        }
+    }
+    men.truncate(24);
+    let mut seq = vec![];
+    for (i, &s) in men.iter().enumerate() {
+        match (w[5] >> (2 * (i % 32))) & 3 {
+            0 => seq.push((s, true, occ)),
+            1 => seq.push((s, false, occ)),
+            2 => {
+                seq.push((s, true, occ));
+                seq.push((s, false, occ));
+            }
+            _ => {
+                seq.push((s, false, occ));
+                seq.push((s, true, occ));
+            }
+        }
+    }
+    // men that move along their attack set and are asked again from the new square
+    let mut x = w[4];
+    for step in 0..6u32 {
+        if men.is_empty() {
+            break;
+        }
+        let s = men[(x % men.len() as u64) as usize];
+        x = x.rotate_right(11) ^ w[2].rotate_left(step);
+        let rook = x & 1 == 0;
+        let targets = walk(s, rook, occ) & !occ;
+        if targets == 0 {
+            continue;
+        }
+        let ts: Vec<Sq> = (0..64u8).filter(|t| targets >> t & 1 == 1).collect();
+        let t = ts[((x >> 8) % ts.len() as u64) as usize];
+        seq.push((s, rook, occ));
+        occ = occ & !(1u64 << s) | 1u64 << t;
+        seq.push((t, rook, occ));
+        for m in men.iter_mut() {
+            if *m == s {
+                *m = t;
+            }
+        }
+    }
+    seq
+}
+
 pub fn run(cfg: &Cfg) -> i32 {
     let report = engine::run_shards(cfg, |shard, ctx, seedf| {
         let k = cfg.tier.pick(510usize, 8190usize);
@@ -141,6 +243,15 @@ pub fn run(cfg: &Cfg) -> i32 {
             }
         }
         ctx.class("pass:second-pass-in-reverse-order");
+        // sequences of lookups as programs issue them
+        let words = proptest::array::uniform6(any::<u64>());
+        engine::pbt(ctx, seedf(200), cfg.per_shard(160_000, 3_200_000), &words, |ctx, w: &[u64; 6]| {
+            let seq = sequence_of(w);
+            ctx.nontrivial(fp(&seq));
+            ctx.class("sequence:men-of-one-occupancy-in-turn,then-moved-men");
+            ctx.count("lookups_in_sequences", seq.len() as u64);
+            check_sequence(ctx, &seq)
+        })?;
         ctx.sample(|| json!({"build": BUILD, "enumerated": "every subset of each square's rook rays (2^14 per square) and bishop rays (2^7..2^13), each with all-empty, all-full and generated fillings of the other squares"}));
         Ok(())
     });
@@ -153,7 +264,7 @@ pub fn run(cfg: &Cfg) -> i32 {
     let rc = engine::finish(
         report,
         EvidenceSpec {
-            rule: format!("cases = (square, rook|bishop, subset of that square's rays, filling of the irrelevant squares): every subset of every square's rays is enumerated (1,048,576 rook + 71,168 bishop base occupancies) and combined with the empty, the full and {} generated fillings of the squares off the rays; get_rook_moves / get_bishop_moves (and, in the +bmi2 build, get_*_moves_bmi) are compared with square-by-square ray walking; every square is asked again afterwards in reverse order (get_*_rays are compared with the empty-board rays too, but only counted: the statement is about the attack lookups). evaluations = lookups compared in this build (the other build's count is under other_build). Non-trivial: every base occupancy counts (distinct = distinct (square, piece, ray subset)).", cfg.tier.pick(510, 8190)),
+            rule: format!("cases = (square, rook|bishop, subset of that square's rays, filling of the irrelevant squares): every subset of every square's rays is enumerated (1,048,576 rook + 71,168 bishop base occupancies) and combined with the empty, the full and {} generated fillings of the squares off the rays; get_rook_moves / get_bishop_moves (and, in the +bmi2 build, get_*_moves_bmi) are compared with square-by-square ray walking; every square is asked again afterwards in reverse order; then generated sequences of 2-60 lookups (the men of an occupancy of generated density asked in turn in ascending / descending / shuffled order as rook, bishop or both, then men moved along their own attack sets and asked again from the new square), each sequence on a fresh thread, every answer compared with ray walking (get_*_rays are compared with the empty-board rays too, but only counted: the statement is about the attack lookups). evaluations = lookups compared in this build (the other build's count is under other_build). Non-trivial: every base occupancy counts (distinct = distinct (square, piece, ray subset)).", cfg.tier.pick(510, 8190)),
             assumptions: vec!["ray walking oracle from the definition".into(), "the machine supports BMI2 (checked by ./check before running the +bmi2 build)".into()],
             trusted_base: vec!["harness/src/props/c15.rs walk()".into(), "proptest 1.11 (noise)".into()],
             exhaustive: Some(true),
@@ -166,6 +277,18 @@ pub fn run(cfg: &Cfg) -> i32 {
 pub fn replay(ctx: &mut Ctx, case: &Value) -> Result<(), Violation> {
     let a = crate::refmodel::parse_sq(case["square"].as_str().unwrap_or("a1")).unwrap_or(0);
     let rook = case["piece"].as_str() == Some("rook");
+    if let Some(list) = case.get("sequence").and_then(|x| x.as_array()) {
+        let seq: Vec<(Sq, bool, u64)> = list
+            .iter()
+            .filter_map(|e| {
+                let a = crate::refmodel::parse_sq(e.get(0)?.as_str()?)?;
+                let rook = e.get(1)?.as_str()? == "rook";
+                let occ = u64::from_str_radix(e.get(2)?.as_str()?.trim_start_matches("0x"), 16).ok()?;
+                Some((a, rook, occ))
+            })
+            .collect();
+        return check_sequence(ctx, &seq);
+    }
     match case["occupancy"].as_str().and_then(|s| u64::from_str_radix(s.trim_start_matches("0x"), 16).ok()) {
         Some(occ) => check_lookup(ctx, a, rook, occ),
         None => check_square(ctx, a, rook, &[0, !0, 0x5555_5555_5555_5555, 0xAAAA_AAAA_AAAA_AAAA]),
